@@ -195,13 +195,22 @@ def seq_prelude():
     def copy(it, f, args, kw, node):
         return f.bound
 
+    def flip(it, f, args, kw, node):
+        v = args[0]
+        if isinstance(v, Seq) and kw.get('axis', args[1] if len(args) > 1 else None) in (None, 0, -1):
+            r = v.cx_getitem(it, slice(None, None, -1))        # a one-dimensional array flipped is the array reversed
+            if r is not NotImplemented:
+                return r
+        raise cx.Unsupported('np.flip of this value')
+
     def nparray(it, f, args, kw, node):
         v = args[0]
         if isinstance(v, Seq):
             return v                # element-wise copy: same length, same elements
         from pyvc import prelude
         return prelude.TABLE['np.array'](it, f, args, kw, node)
-    return {'np.array': nparray, 'np.atleast_1d': nparray, 'np.arange': arange, 'np.cumsum': cumsum, 'np.sum': npsum, 'np.floor': floor, 'np.ceil': ceil, 'seq.copy': copy, 'np.isclose': isclose}
+    return {'np.array': nparray, 'np.atleast_1d': nparray, 'np.arange': arange, 'np.cumsum': cumsum, 'np.sum': npsum, 'np.floor': floor, 'np.ceil': ceil, 'seq.copy': copy, 'np.isclose': isclose,
+            'np.flip': flip, 'np.flipud': flip}
 
 
 def r_hook(it, v, k):
@@ -244,6 +253,8 @@ def run_stretch(use_up):
 
     def getitem(self, v, k, node=None):
         if isinstance(v, cx.LibFn) and v.name.endswith('.r_') and isinstance(k, tuple) and any(isinstance(x, Seq) for x in k):
+            if not all(isinstance(x, Seq) or ((isinstance(x, (int, float)) or cx.is_sym(x)) and not isinstance(x, bool)) for x in k):
+                raise cx.Unsupported('np.r_ of something that is neither a sequence of the model nor a scalar')
             return Concat([x if isinstance(x, Seq) else Seq(1, (lambda x: lambda j: Rr(x))(x), None, 'scalar') for x in k])
         return orig_getitem(self, v, k, node)
     cx.Interp.getitem = getitem
